@@ -20,6 +20,9 @@ RULE = ('three streams. EUI-64: 48-bit MACs (all single-bit, all-but-one-bit, by
         'random strings over the delimiter alphabet; non-trivial = at least one of query/fragment/netloc present. '
         'Call sequences: params() calls on reused / fresh / same-query result objects interleaved with 13 kinds of '
         'mutation of earlier results; non-trivial = at least one mutation and two calls. '
+        'Call forms: every legal positional/keyword/omitted layout of the pinned signatures of the six public '
+        'callables for the same logical arguments. Protocols: copy, deepcopy, pickle (all protocols), rebuild from '
+        'own fields, _make, _replace of every urlsplit result; copy/deepcopy/pickle of the netaddr results. '
         'Distinct by the canonical input tuple.')
 TRUSTED_BASE = [
     'Lean 4 kernel; axioms audited per theorem (subset of propext, Classical.choice, Quot.sound)',
@@ -650,6 +653,16 @@ def corr_url(ctx, out):
             out.append(Disagreement(case, impl, model))
         if r is None:
             continue
+        # the model's five components are also what every clone of the result must carry
+        for kind in clone_kinds():
+            ctx.evaluations += 1
+            try:
+                c = five(make_clone(r, kind))
+            except Exception as e:
+                c = exc_name(e)
+            if c != model:
+                out.append(Disagreement(dict(case, clone=kind), '%s of the result: %r' % (kind, c), model))
+                break
         try:
             qsl = parse.parse_qsl(r.query)
         except Exception:
@@ -954,11 +967,355 @@ def corr_seq(ctx, out):
     ctx.sample({'urls': cases[0]['urls'], 'steps': cases[0]['steps']}, 8)
 
 
+# --------------------------------------------------------------------------
+# calling convention and object protocols
+#
+# The pinned public signatures (clean tree, written out here as data - never read from the tree under test).
+# REQ marks a parameter without default.  Every legal way of passing the same logical arguments must give
+# the same answer: a positional prefix of any length, the rest by keyword in any order, optional
+# parameters that have their default value passed or omitted.
+
+REQ = '<required>'
+PINNED = {
+    'parse_host_port': [('address', REQ), ('default_port', None)],
+    'escape_ipv6': [('address', REQ)],
+    'urlsplit': [('url', REQ), ('scheme', ''), ('allow_fragments', True)],
+    'get_ipv6_addr_by_EUI64': [('prefix', REQ), ('mac', REQ)],
+    'get_mac_addr_by_ipv6': [('ipv6', REQ), ('dialect', 'mac_unix_expanded')],      # netaddr.<name>
+    'params': [('collapse', True)],                                                   # method of the urlsplit result
+}
+DIALECTS = ['mac_unix_expanded', 'mac_cisco', 'mac_bare', 'mac_eui48', 'mac_unix', 'mac_pgsql']
+
+
+def same_value(a, b):
+    return type(a) is type(b) and a == b
+
+
+def all_forms(fn, logical):
+    """every legal call form for the logical arguments: {'pos': n positional, 'kw': [names in order]}"""
+    params = PINNED[fn]
+    forms = []
+    for npos in range(len(params) + 1):
+        rest = params[npos:]
+        must = [nm for nm, d in rest if d is REQ or not same_value(logical[nm], d)]
+        may = [nm for nm, d in rest if not (d is REQ or not same_value(logical[nm], d))]
+        for k in range(len(may) + 1):
+            for extra in itertools.combinations(may, k):
+                names = must + list(extra)
+                perms = itertools.permutations(names) if len(names) <= 3 else [names, names[::-1]]
+                for perm in perms:
+                    forms.append({'pos': npos, 'kw': list(perm)})
+    return forms
+
+
+def canonical_form(fn, logical):
+    """the one form the rest of this harness uses (all positional)"""
+    return {'pos': len(PINNED[fn]), 'kw': []}
+
+
+def resolve(fn, name, value):
+    if fn == 'get_mac_addr_by_ipv6' and name == 'dialect':
+        import netaddr
+        return getattr(netaddr, value)
+    if fn == 'get_mac_addr_by_ipv6' and name == 'ipv6':
+        import netaddr
+        return netaddr.IPAddress(value, 6)
+    return value
+
+
+def invoke(fn, logical, form, target=None):
+    """call the implementation's `fn` with the logical arguments laid out as `form` says"""
+    params = PINNED[fn]
+    f = getattr(target, 'params') if fn == 'params' else getattr(_n(), fn)
+    args = [resolve(fn, nm, logical[nm]) for nm, _ in params[:form['pos']]]
+    kwargs = {nm: resolve(fn, nm, logical[nm]) for nm in form['kw']}
+    return f(*args, **kwargs)
+
+
+def form_text(fn, logical, form):
+    params = PINNED[fn]
+    parts = [repr(logical[nm]) for nm, _ in params[:form['pos']]] + ['%s=%r' % (nm, logical[nm]) for nm in form['kw']]
+    return '%s(%s)' % (fn, ', '.join(parts))
+
+
+def result_text(fn, r):
+    """canonical text of a result, the same as the model driver's reply for that function"""
+    if isinstance(r, Exception):
+        return exc_name(r)
+    if fn == 'parse_host_port':
+        h, p = r
+        return 'ok %s %s' % ('N' if h is None else hexs(h), 'N' if p is None else p)
+    if fn == 'escape_ipv6':
+        return hexs(r)
+    if fn == 'urlsplit':
+        return ' '.join(hexs(x) for x in five(r))
+    if fn == 'get_ipv6_addr_by_EUI64':
+        return 'v%d:%d' % (r.version, int(r))
+    if fn == 'get_mac_addr_by_ipv6':
+        return str(int(r))
+    if fn == 'params':
+        return show_params(r)
+    return repr(r)
+
+
+def try_invoke(fn, logical, form, target=None):
+    try:
+        return invoke(fn, logical, form, target)
+    except Exception as e:
+        return e
+
+
+def form_cases(ctx, per_fn):
+    """logical argument sets per function, each with what the PROPERTY says the answer is (`expect`)"""
+    rng = ctx.rng
+    import netaddr
+    for i in range(per_fn):
+        fam, h = gen_host(rng)
+        if fam == 'name' and (':' in h or h.startswith('[')):
+            continue
+        if fam == 'v6' and ']' in h.rpartition('%')[2]:
+            continue
+        esc = '[%s]' % h if fam == 'v6' else h
+        d = [None, 1234, 0, 65535, '8080', None][i % 6]
+        port = None if i % 2 else rng.choice(PORT_EDGE)
+        want_port = port if port is not None else (None if d is None else int(d))
+        yield {'kind': 'form', 'fn': 'parse_host_port',
+               'args': {'address': esc if port is None else '%s:%d' % (esc, port), 'default_port': d},
+               'expect': [h, want_port]}
+        yield {'kind': 'form', 'fn': 'escape_ipv6', 'args': {'address': h}, 'expect': esc}
+    urls = list(itertools.islice(url_cases(ctx), per_fn))
+    for j, (u, sch, af, tag) in enumerate(urls):
+        yield {'kind': 'form', 'fn': 'urlsplit', 'args': {'url': u, 'scheme': sch, 'allow_fragments': af}}
+        if j % 3 == 0:
+            try:
+                parse.urlsplit(u)
+            except ValueError:
+                continue
+            yield {'kind': 'form', 'fn': 'params', 'url': u, 'args': {'collapse': bool(j % 2)}}
+    macs = mac_patterns(rng, per_fn // 4)
+    for i, mv in enumerate(rng.sample(macs, min(len(macs), per_fn))):
+        net = (rng.getrandbits(64) << 64) if i % 3 else (0x20010db8 << 96)
+        L = [64, 48, 56, 10, 0, 63][i % 6]
+        net &= ((1 << 128) - 1) ^ ((1 << (128 - L)) - 1)
+        addr = net | int.from_bytes(iid_bytes(mv), 'big')
+        yield {'kind': 'form', 'fn': 'get_ipv6_addr_by_EUI64',
+               'args': {'prefix': '%s/%d' % (ipaddress.IPv6Address(net).compressed, L), 'mac': mac_render(mv, 'colon')},
+               'expect': addr}
+        dialect = DIALECTS[i % len(DIALECTS)]
+        yield {'kind': 'form', 'fn': 'get_mac_addr_by_ipv6', 'args': {'ipv6': addr, 'dialect': dialect},
+               'expect': [mv, str(netaddr.EUI(mv, dialect=getattr(netaddr, dialect)))]}
+
+
+def form_target(case):
+    if case['fn'] == 'params':
+        return _n().urlsplit(case['url'])
+    return None
+
+
+def judge_form(case, r):
+    """is result `r` what the property says for the logical arguments of `case`? -> None or a description"""
+    fn, a = case['fn'], case['args']
+    if fn == 'urlsplit':
+        try:
+            std = parse.urlsplit(a['url'], a['scheme'], a['allow_fragments'])
+        except Exception as e:
+            return None if exc_name(r) == exc_name(e) else 'got %r, urllib.parse.urlsplit raises %s' % (r, exc_name(e))
+        if isinstance(r, Exception):
+            return 'raised %s: %s' % (exc_name(r), r)
+        if five(r) != five(std):
+            return 'components %r, urllib.parse gives %r' % (five(r), five(std))
+        return None
+    if isinstance(r, Exception):
+        return 'raised %s: %s' % (exc_name(r), r)
+    if fn == 'parse_host_port':
+        want = tuple(case['expect'])
+        return None if r == want and type(r[1]) is type(want[1]) else 'returned %r, expected %r' % (r, want)
+    if fn == 'escape_ipv6':
+        return None if r == case['expect'] else 'returned %r, expected %r' % (r, case['expect'])
+    if fn == 'get_ipv6_addr_by_EUI64':
+        return None if (r.version == 6 and int(r) == case['expect']) else 'returned %s, expected %s' % (
+            r, ipaddress.IPv6Address(case['expect']))
+    if fn == 'get_mac_addr_by_ipv6':
+        import netaddr
+        mv, text = case['expect']
+        if int(r) != mv or r.dialect is not getattr(netaddr, a['dialect']) or str(r) != text:
+            return 'returned %s (dialect %s), expected %s (dialect %s)' % (r, r.dialect.__name__, text, a['dialect'])
+        return None
+    if fn == 'params':
+        q = parse.urlsplit(case['url']).query
+        want = spec_params(parse.parse_qsl(q), a['collapse']) if q else {}
+        return None if (r == want and list(r) == list(want)) else 'returned %r, expected %r' % (r, want)
+    return None
+
+
+def oracle_form(case):
+    forms = [case['form']] if case.get('form') else all_forms(case['fn'], case['args'])
+    target = form_target(case)
+    for form in forms:
+        why = judge_form(case, try_invoke(case['fn'], case['args'], form, target))
+        if why:
+            return '%s %s' % (form_text(case['fn'], case['args'], form), why)
+    return None
+
+
+def model_line_form(case):
+    """request line for the model for the logical arguments (None when the stdlib raised / not applicable)"""
+    fn, a = case['fn'], case['args']
+    if fn == 'parse_host_port':
+        return req('php', 'N' if a['address'] is None else hexs(a['address']), dflt_field(a['default_port']))
+    if fn == 'escape_ipv6':
+        return req('esc', hexs(a['address']))
+    if fn == 'get_ipv6_addr_by_EUI64':
+        return req('eui', *(classify_prefix(a['prefix']) + classify_mac(a['mac'])))
+    if fn == 'get_mac_addr_by_ipv6':
+        return req('macof', 6, a['ipv6'])
+    try:
+        if fn == 'urlsplit':
+            std = five(parse.urlsplit(a['url'], a['scheme'], a['allow_fragments']))
+            if not all(valid_text(x) for x in std):
+                return None
+            return req('url', 1 if a['allow_fragments'] else 0, *[hexs(x) for x in std])
+        if fn == 'params':
+            q = parse.urlsplit(case['url']).query
+            qsl = parse.parse_qsl(q)
+            if not all(valid_text(k) and valid_text(v) for k, v in qsl) or not valid_text(q):
+                return None
+            pairs = ','.join('%s=%s' % (hexs(k), hexs(v)) for k, v in qsl) or '-'
+            return req('params', hexs(q), 1 if a['collapse'] else 0, pairs)
+    except Exception:
+        return None
+    return None
+
+
+def model_text_form(fn, reply):
+    """bring a driver reply to the shape of result_text"""
+    if fn == 'escape_ipv6':
+        return reply.split(' ', 1)[1] if ' ' in reply else reply
+    return reply
+
+
+def corr_forms(ctx, out):
+    cases = list(form_cases(ctx, 120 if ctx.quick else 2500))
+    lines, meta = [], []
+    for case in cases:
+        line = model_line_form(case)
+        if line is None:
+            continue
+        lines.append(line)
+        meta.append(case)
+    for case, rep in zip(meta, ctx.driver.ask_many(lines)):
+        fn = case['fn']
+        if rep == 'unmodelled':
+            continue
+        want = model_text_form(fn, rep)
+        target = form_target(case)
+        for form in all_forms(fn, case['args']):
+            ctx.evaluations += 1
+            ctx.count('corr/forms/%s/pos%d+kw%d' % (fn, form['pos'], len(form['kw'])))
+            got = result_text(fn, try_invoke(fn, case['args'], form, target))
+            if got != want:
+                out.append(Disagreement(dict(case, form=form), '%s -> %s' % (form_text(fn, case['args'], form), got), want))
+                break
+        ctx.nontrivial(('form', fn, repr(case['args'])))
+
+
+# object protocols of what the functions return: a clone made by copy / deepcopy / pickle / rebuilding the
+# tuple from its own fields must be indistinguishable from the original, and both stay usable.
+
+def clone_kinds():
+    import pickle
+    return (['copy', 'deepcopy', 'rebuild(*r)', 'rebuild(**_asdict)', '_make', '_replace()', '_replace(same)']
+            + ['pickle%d' % pr for pr in range(pickle.HIGHEST_PROTOCOL + 1)])
+
+
+def make_clone(r, kind):
+    import copy
+    import pickle
+    if kind == 'copy':
+        return copy.copy(r)
+    if kind == 'deepcopy':
+        return copy.deepcopy(r)
+    if kind.startswith('pickle'):
+        return pickle.loads(pickle.dumps(r, int(kind[6:])))
+    if not isinstance(r, tuple):
+        return None                      # the namedtuple forms do not apply to netaddr objects
+    if kind == 'rebuild(*r)':
+        return type(r)(*r)
+    if kind == 'rebuild(**_asdict)':
+        return type(r)(**r._asdict())
+    if kind == '_make':
+        return type(r)._make(r)
+    if kind == '_replace()':
+        return r._replace()
+    if kind == '_replace(same)':
+        return r._replace(scheme=r.scheme, path=r.path, fragment=r.fragment)
+    return None
+
+
+def split_view(r):
+    """everything the property compares on a split result"""
+    def attr(name):
+        try:
+            return getattr(r, name)
+        except ValueError:
+            return 'ValueError'
+    return {'components': five(r), 'tuple': tuple(r), 'geturl': r.geturl(), 'hostname': attr('hostname'),
+            'port': attr('port'), 'username': attr('username'), 'password': attr('password')}
+
+
+def oracle_split_clones(r, std, kinds):
+    """r: netutils result, std: urllib.parse result of the same call.  Every clone of r must still agree
+    with the standard library on every component (the stdlib's own clones do), equal r and hash like r;
+    r itself must be unchanged afterwards."""
+    want = split_view(std)
+    qsl = parse.parse_qsl(std.query)
+    for kind in kinds:
+        try:
+            c = make_clone(r, kind)
+        except Exception as e:
+            return '%s of the result raised %s: %s' % (kind, exc_name(e), e)
+        for who, obj in (('%s of the result' % kind, c), ('the result itself, after %s,' % kind, r)):
+            if type(obj) is not type(r):
+                return '%s has type %s' % (who, type(obj).__name__)
+            got = split_view(obj)
+            for key in want:
+                if got[key] != want[key]:
+                    return '%s has %s %r, urllib.parse gives %r' % (who, key, got[key], want[key])
+            for collapse in (True, False):
+                gp, wp = obj.params(collapse=collapse), spec_params(qsl, collapse)
+                if gp != wp or list(gp) != list(wp):
+                    return '%s has params(collapse=%s) %r, expected %r' % (who, collapse, gp, wp)
+        if not (c == r) or c != r or hash(c) != hash(r) or repr(c) != repr(r):
+            return '%s differs from the original in ==/hash/repr: %r vs %r' % (kind, c, r)
+    return None
+
+
+def oracle_netaddr_clones(case):
+    """the IPAddress / EUI objects returned by the EUI-64 helpers survive copy / deepcopy / pickle"""
+    n = _n()
+    p, mv = case['prefix'], case['mac_int']
+    a = n.get_ipv6_addr_by_EUI64(p, mac_render(mv, 'colon'))
+    e = n.get_mac_addr_by_ipv6(a)
+    for kind in [k for k in clone_kinds() if k in ('copy', 'deepcopy') or k.startswith('pickle')]:
+        for name, obj in (('get_ipv6_addr_by_EUI64', a), ('get_mac_addr_by_ipv6', e)):
+            try:
+                c = make_clone(obj, kind)
+            except Exception as ex:
+                return '%s of the %s result raised %s' % (kind, name, exc_name(ex))
+            if type(c) is not type(obj) or c != obj or hash(c) != hash(obj) or int(c) != int(obj) or str(c) != str(obj):
+                return '%s of the %s result %s is %s' % (kind, name, obj, c)
+        back = n.get_mac_addr_by_ipv6(make_clone(a, kind))
+        if int(back) != mv:
+            return 'get_mac_addr_by_ipv6(%s of %s) = %s, MAC was %012x' % (kind, a, back, mv)
+    return None
+
+
 def correspondence(ctx):
     out = []
     corr_eui(ctx, out)
     corr_hostport(ctx, out)
     corr_url(ctx, out)
+    corr_forms(ctx, out)
     corr_seq(ctx, out)      # last: see search()
     return out
 
@@ -1088,7 +1445,7 @@ def spec_params(qsl, collapse):
     return out
 
 
-def oracle_url(u, sch, af):
+def oracle_url(u, sch, af, kinds=None):
     n = _n()
     try:
         std = parse.urlsplit(u, sch, af)
@@ -1121,7 +1478,7 @@ def oracle_url(u, sch, af):
         want = spec_params(qsl, collapse)
         if got != want or list(got) != list(want):
             return 'params(collapse=%s) = %r, expected %r' % (collapse, got, want)
-    return None
+    return oracle_split_clones(r, std, clone_kinds() if kinds is None else kinds)
 
 
 def run_oracle(case):
@@ -1153,6 +1510,10 @@ def run_oracle(case):
         return oracle_hostport(case['host'], case['port'], case['default'])
     if k in ('url', 'params'):
         return oracle_url(case['url'], case['scheme'], case['allow_fragments'])
+    if k == 'form':
+        return oracle_form(case)
+    if k == 'netaddr-clones':
+        return oracle_netaddr_clones(case)
     if k == 'params-seq':
         return oracle_seq(case)
     if k == 'obj-seq':
@@ -1272,6 +1633,17 @@ def search(ctx, seeds, full=False):
     if KF_LONGPREFIX in listed:
         for pt, mv in [('::1', 0), ('2001:db8::1:0:0:1/96', 0x00163e334455)]:
             check({'kind': 'eui-long-prefix', 'prefix': pt, 'mac': mac_render(mv, 'colon'), 'mac_int': mv})
+    # --- calling convention: every legal call form of the pinned signatures; clones of netaddr results ---
+    for s in seeds[:300]:
+        if s.get('kind') == 'form':
+            check(dict(s))
+    for case in form_cases(ctx, (150 if ctx.quick else 2000) * (2 if full else 1)):
+        ctx.count('search/forms/' + case['fn'])
+        check(case)
+    for pt, mv in [('2001:db8::/64', 0x00163e334455), ('fe80::/10', 0xffffffffffff), ('::/0', 0),
+                   ('::/64', 0x020000000000)]:
+        ctx.count('search/netaddr-clones')
+        check({'kind': 'netaddr-clones', 'prefix': pt, 'mac_int': mv})
     # --- URLs ---
     for (u, sch, af, tag) in url_cases(ctx) if (full or not ctx.quick) else itertools.islice(url_cases(ctx), 2000):
         ctx.count('search/url/' + tag)
@@ -1363,6 +1735,12 @@ def shrink(case):
             return run_oracle(c) is not None
         if len(case['host']) >= 2:
             case['host'] = ''.join(common.shrink_list(list(case['host']), still))
+    elif case['kind'] == 'form' and not case.get('form'):
+        # name the first call form that gives the wrong answer
+        for form in all_forms(case['fn'], case['args']):
+            c = dict(case, form=form)
+            if run_oracle(c):
+                return c
     elif case['kind'] == 'eui' and case.get('mac_int') is not None:
         for mv in (0, 1, 1 << 41, 1 << 24):
             c = dict(case, mac=mac_render(mv, 'colon'), mac_int=mv)
@@ -1389,6 +1767,8 @@ def pretty(reply):
 
 def model_line(case):
     k = case.get('kind')
+    if k == 'form':
+        return model_line_form(case)
     if k in ('eui', 'eui-error', 'eui-long-prefix'):
         p, m = dec(case['prefix']), dec(case['mac'])
         return req('eui', *(classify_prefix(p) + classify_mac(m)))
@@ -1439,6 +1819,19 @@ def replay(ctx, payload):
         e = n.escape_ipv6(case['host'])
         a = e if case['port'] is None else e + ':' + str(case['port'])
         print('implementation: parse_host_port(%r, default_port=%r) -> %s' % (a, case['default'], pretty(impl_php(a, case['default']))))
+    elif k == 'form':
+        target = form_target(case)
+        for form in ([case['form']] if case.get('form') else all_forms(case['fn'], case['args'])):
+            r = try_invoke(case['fn'], case['args'], form, target)
+            shown = ('raised %s: %s' % (exc_name(r), r)) if isinstance(r, Exception) else (
+                five(r) if case['fn'] == 'urlsplit' else r)
+            print('implementation: %s -> %s   [%s]' % (form_text(case['fn'], case['args'], form), shown,
+                                                       judge_form(case, r) or 'as the property says'))
+        if case['fn'] == 'params':
+            print('  (called on urlsplit(%r))' % case['url'])
+    elif k == 'netaddr-clones':
+        print('clones (copy / deepcopy / pickle) of the results of get_ipv6_addr_by_EUI64(%r, %r) and of '
+              'get_mac_addr_by_ipv6 on it' % (case['prefix'], mac_render(case['mac_int'], 'colon')))
     elif k == 'params-seq':
         recs = run_seq(case)                 # one run only: a second one would see what the first left behind
         calls = iter(recs)
@@ -1466,6 +1859,16 @@ def replay(ctx, payload):
                 print('%s: %r%s' % (name, five(r), extra))
             except Exception as e:
                 print('%s: raised %s' % (name, exc_name(e)))
+        try:
+            r = n.urlsplit(case['url'], case['scheme'], case['allow_fragments'])
+            for kind in clone_kinds():
+                try:
+                    c = make_clone(r, kind)
+                    print('  %-20s %r%s' % (kind, five(c), '' if (c == r and hash(c) == hash(r)) else '   != original'))
+                except Exception as e:
+                    print('  %-20s raised %s' % (kind, exc_name(e)))
+        except Exception:
+            pass
     line = model_line(case)
     if line:
         print('model         :', pretty(ctx.driver.ask(line)))
